@@ -6,17 +6,21 @@ package main
 // Append / Write adds exactly one line to the target.
 
 import (
+	"context"
 	"encoding/json"
 	"errors"
 	"fmt"
 	"os"
 	"path/filepath"
 	"strings"
+	"sync"
+	"sync/atomic"
 	"time"
 
 	"github.com/go-spring/log"
 
 	"verifharness/hx"
+	"verifharness/sys"
 )
 
 func init() { commands["sinkfaults"] = cmdSinkFaults }
@@ -45,6 +49,90 @@ func (w *flakyWriter) Write(b []byte) (int, error) {
 	return w.buf.Write(b)
 }
 
+// asyncRotationFailure: a rolling appender behind an asynchronous root logger (policy Block) whose queue is full when
+// a rotation fails.  The failure may be reported anywhere - but not in a way that needs room in that very queue: the
+// worker goes on, log calls return, Destroy returns, and the accepted events are in the file the appender kept.
+func asyncRotationFailure(r *hx.Result, tmp string) {
+	sys.InstallConsole()
+	dir := filepath.Join(tmp, "arf")
+	away := dir + ".away"
+	_ = os.MkdirAll(dir, 0o755)
+	defer os.RemoveAll(dir)
+	defer os.RemoveAll(away)
+	log.Destroy() // (no registry reset: the library's own tags stay registered and are bound by Refresh like any other)
+	sys.ResetAppenders()
+	log.RegisterTimeRotation("arfh", log.TimeRotation{Interval: time.Hour})
+	var mu sync.Mutex
+	now := time.Date(2036, 1, 1, 10, 0, 0, 0, time.UTC)
+	log.VerifNow = func(time.Time) time.Time { mu.Lock(); defer mu.Unlock(); return now }
+	park := make(chan struct{})
+	var parked atomic.Bool
+	entered := make(chan struct{}, 1)
+	log.VerifRoll = func(_ *log.RollingFileAppender, p int) {
+		if p == 22 && parked.CompareAndSwap(false, true) { // the worker, after its first write
+			entered <- struct{}{}
+			<-park
+		}
+	}
+	defer func() { log.VerifNow, log.VerifRoll = nil, nil }()
+	tag := log.RegisterTag("arf_tag")
+	cfg := sys.Cfg{}
+	cfg["appender.roll.type"] = "RollingFile"
+	cfg["appender.roll.fileDir"], cfg["appender.roll.fileName"] = dir, "a.log"
+	cfg["appender.roll.rotation"], cfg["appender.roll.maxAge"] = "arfh", "100"
+	cfg.AddLogger("root", "AsyncLogger", "", "\x00", []sys.Ref{{Ref: "roll"}}, false, map[string]string{"bufferSize": "100", "bufferFullPolicy": "Block"})
+	if err := log.Refresh(cfg.Map(nil)); err != nil {
+		r.SetInfra("asyncRotationFailure refresh: %v", err)
+		return
+	}
+	ctx := context.Background()
+	desc := map[string]any{"logger": "root = AsyncLogger{Block, 100 slots} -> RollingFile appender", "sequence": "queue full, directory away, interval boundary, worker continues"}
+	log.Info(ctx, tag, log.Int("id", 1))
+	select {
+	case <-entered:
+	case <-time.After(8 * time.Second):
+		r.SetInfra("asyncRotationFailure: the worker did not reach the appender")
+		return
+	}
+	for id := int64(2); id <= 101; id++ {
+		log.Info(ctx, tag, log.Int("id", id)) // the queue is full now
+	}
+	if err := os.Rename(dir, away); err != nil {
+		r.SetInfra("rename: %v", err)
+		return
+	}
+	mu.Lock()
+	now = now.Add(time.Hour)
+	mu.Unlock()
+	close(park)
+	ret, p := hx.Within(10*time.Second, func() {
+		log.Info(ctx, tag, log.Int("id", 102))
+		log.Destroy()
+	})
+	_ = os.Rename(away, dir)
+	r.Eval(102)
+	if !ret || p != nil {
+		r.Violate("blocked:async-rotation-failure", desc, "a log call and Destroy after the failed rotation: returned=%v panic=%v", ret, p)
+		return
+	}
+	seen := map[int64]int{}
+	ents, _ := os.ReadDir(dir)
+	for _, e := range ents {
+		b, _ := os.ReadFile(filepath.Join(dir, e.Name()))
+		for _, line := range strings.Split(string(b), "\n") {
+			if id, _ := sys.ParseLine([]byte(line)); id > 0 {
+				seen[id]++
+			}
+		}
+	}
+	for id := int64(1); id <= 102; id++ {
+		if seen[id] != 1 {
+			r.Violate("sink-delivery:async-rotation-failure", desc, "event %d is in the kept file %d times (files: %d)", id, seen[id], len(ents))
+			return
+		}
+	}
+}
+
 func cmdSinkFaults(f hx.Flags, r *hx.Result) {
 	tmp, err := os.MkdirTemp(os.Getenv("VERIF_SCRATCH"), "sk-")
 	if err != nil {
@@ -52,6 +140,7 @@ func cmdSinkFaults(f hx.Flags, r *hx.Result) {
 		return
 	}
 	defer os.RemoveAll(tmp)
+	defer asyncRotationFailure(r, tmp)
 	n := 0
 	sigs := map[string]bool{}
 	err = hx.ReadCases(f.Str("cases", ""), func(raw json.RawMessage) error {
